@@ -563,6 +563,9 @@ def snapshot_documented():
 def main():
     if "--snapshot-documented" in sys.argv:
         return snapshot_documented()
+    # C07: phase order of cli(), call sites of `random`, static hazards -> Generated/Phases.lean
+    import extract_phases
+    extract_phases.main()
     text = emit()
     os.makedirs(os.path.dirname(OUT), exist_ok=True)
     if os.path.exists(OUT) and open(OUT, encoding="utf-8").read() == text:
